@@ -168,6 +168,11 @@ Section LRuns.
     mp_draws now (s_mp s) (s_calls s) (op_actions W s now o).
 End LRuns.
 
+(** the reap flag of a call, computed: one of its MultiState::draw calls is attempted (not refused
+    by the refresh limiter) - an attempted draw takes the dropped bars at the head off the list *)
+Definition op_reaps (W H : N) (fails : N -> bool) (s : sys) (now : N) (o : op) : bool :=
+  existsb (fun d => ms_attempt W (fst (fst d)) (snd (fst d)) (snd d) now) (step_draws W H fails s now o).
+
 (** the MultiProgress draws to a terminal *)
 Definition mp_visible (s : sys) : Prop := exists tg, ms_target (s_mp s) = TTerm tg.
 
